@@ -5,6 +5,7 @@ import (
 	"errors"
 	"fmt"
 	"math"
+	"sync"
 	"time"
 
 	"github.com/ThreeDotsLabs/watermill/message"
@@ -181,6 +182,101 @@ func c12Body(r *Run) {
 	}
 }
 
+// c12Concurrent: several messages are in flight in ONE Retry-wrapped handler; every message gets its own back-off schedule.
+func c12Concurrent(r *Run) {
+	t := r.T
+	cfg := middleware.Retry{}
+	cfg.MaxRetries = 2 + t.Int(5)
+	cfg.InitialInterval = time.Duration(5+t.Int(46)) * time.Millisecond
+	cfg.Multiplier = 1.5 + float64(t.Int(16))/10
+	cfg.MaxInterval = 10 * time.Second
+	cfg.RandomizationFactor = float64(t.Int(4)) / 10
+	nMsgs := 2 + t.Skewed(3)
+	type mstate struct {
+		id       int
+		failFor  int
+		startAt  time.Duration
+		attempts []*c12Attempt
+		outs     []*message.Message
+		err      error
+		done     bool
+	}
+	states := map[string]*mstate{}
+	var list []*mstate
+	for i := 0; i < nMsgs; i++ {
+		st := &mstate{id: i, failFor: t.Int(cfg.MaxRetries + 2), startAt: time.Duration(t.Int(300)) * time.Millisecond}
+		states[fmt.Sprintf("m%d", i)] = st
+		list = append(list, st)
+	}
+	r.Describe("one Retry{MaxRetries:%d Initial:%v Mult:%.1f RF:%.1f} instance shared by %d concurrent messages", cfg.MaxRetries, cfg.InitialInterval, cfg.Multiplier, cfg.RandomizationFactor, nMsgs)
+	for _, st := range list {
+		r.Describe("message m%d starts at %v, handler fails %d times", st.id, st.startAt, st.failFor)
+	}
+	mw := cfg.Middleware(func(m *message.Message) ([]*message.Message, error) {
+		st := states[m.UUID]
+		a := &c12Attempt{start: r.Sim.Now()}
+		st.attempts = append(st.attempts, a)
+		time.Sleep(time.Millisecond)
+		a.end = r.Sim.Now()
+		if len(st.attempts) <= st.failFor {
+			a.failed = true
+			a.err = fmt.Errorf("m%d attempt %d failed", st.id, len(st.attempts))
+			r.Fault("handler-error")
+			return nil, a.err
+		}
+		a.outs = []*message.Message{message.NewMessage(fmt.Sprintf("m%d-ok-%d", st.id, len(st.attempts)), nil)}
+		return a.outs, nil
+	})
+	var wg sync.WaitGroup
+	for _, st := range list {
+		st := st
+		wg.Add(1)
+		go func() {
+			defer wg.Done()
+			time.Sleep(st.startAt)
+			st.outs, st.err = mw(message.NewMessage(fmt.Sprintf("m%d", st.id), nil))
+			st.done = true
+		}()
+	}
+	wg.Wait()
+	overlap := false
+	for _, st := range list {
+		what := fmt.Sprintf("message m%d (fails %d times, %d concurrent messages)", st.id, st.failFor, nMsgs)
+		n := len(st.attempts)
+		wantN := st.failFor + 1
+		if wantN > cfg.MaxRetries+1 {
+			wantN = cfg.MaxRetries + 1
+		}
+		if n != wantN {
+			r.Fail("C12.R2", "with several messages in flight a message did not get its own bounded sequence of attempts", "%s: %d attempts, expected %d", what, n, wantN)
+			continue
+		}
+		last := st.attempts[n-1]
+		if (st.err == nil) != !last.failed {
+			r.Fail("C12.R1", "with several messages in flight Retry did not return the outcome of the message's own last attempt", "%s: err=%v", what, st.err)
+		}
+		for k := 1; k < n; k++ {
+			gap := st.attempts[k].start - st.attempts[k-1].end
+			ik := float64(cfg.InitialInterval) * math.Pow(cfg.Multiplier, float64(k-1))
+			if ik > float64(cfg.MaxInterval) {
+				ik = float64(cfg.MaxInterval)
+			}
+			want := time.Duration(ik*(1-cfg.RandomizationFactor)) - time.Microsecond
+			if gap < want {
+				r.Fail("C12.R3", "with several messages in flight a retry started earlier than that message's exponential back-off allows", "%s: retry %d started %v after the previous attempt ended, lower bound %v", what, k, gap, want)
+			}
+		}
+		for _, o := range list {
+			if o != st && len(o.attempts) > 0 && len(st.attempts) > 0 && o.attempts[0].start < st.attempts[n-1].end && st.attempts[0].start < o.attempts[len(o.attempts)-1].end {
+				overlap = true
+			}
+		}
+	}
+	if overlap {
+		r.Probe("messages-overlapped-in-one-retry-instance")
+	}
+}
+
 func init() {
 	Register(&Scenario{
 		Prop: "C12", Name: "retry",
@@ -193,8 +289,21 @@ func init() {
 			}
 			return c
 		},
-		Body:  c12Body,
-		Real:  []string{"middleware.Retry", "github.com/cenkalti/backoff/v3 ExponentialBackOff (on the fake clock, global math/rand seeded)"},
-		Stubs: []string{"scripted handler outcome sequence", "context canceller"},
+		Body:   c12Body,
+		Weight: 3,
+		Real:   []string{"middleware.Retry", "github.com/cenkalti/backoff/v3 ExponentialBackOff (on the fake clock, global math/rand seeded)"},
+		Stubs:  []string{"scripted handler outcome sequence", "context canceller"},
+	})
+	Register(&Scenario{
+		Prop: "C12", Name: "retry-concurrent-messages",
+		Setup: func(r *Run) simrt.Config {
+			c := BaseConfig()
+			c.Horizon = time.Minute
+			return c
+		},
+		Body:   c12Concurrent,
+		Weight: 1,
+		Real:   []string{"middleware.Retry", "github.com/cenkalti/backoff/v3 ExponentialBackOff (on the fake clock, global math/rand seeded)"},
+		Stubs:  []string{"scripted handler outcome sequences per message"},
 	})
 }
